@@ -121,6 +121,10 @@ impl<'a> Dec<'a> {
                 if n > self.buf.len() - self.pos && !self.zero_sized(*e) {
                     return Err(format!("[sig:short] sequence of {n} elements in {} remaining bytes", self.buf.len() - self.pos));
                 }
+                if n > 1 << 20 {
+                    // no generated value is that long; a zero-sized element type would make this loop
+                    return Err(format!("[sig:short] sequence length {n} is not one a generated value has"));
+                }
                 Val::Seq((0..n).map(|_| self.value(*e)).collect::<R<_>>()?)
             }
             MDef::Array { len, ty } => Val::Arr((0..*len).map(|_| self.value(*ty)).collect::<R<_>>()?),
@@ -167,6 +171,10 @@ impl<'a> Dec<'a> {
                 let n = self.compact()? as usize;
                 let bits_per = w * 8;
                 let words = (n + bits_per - 1) / bits_per;
+                // (the length is untrusted: a wrong description makes the decoder read garbage)
+                if words.saturating_mul(w) > self.buf.len() - self.pos {
+                    return Err(format!("[sig:short] bit sequence of {n} bits in {} remaining bytes", self.buf.len() - self.pos));
+                }
                 let mut out = Vec::with_capacity(n);
                 let mut ws = vec![];
                 for _ in 0..words {
